@@ -37,12 +37,12 @@ type HistCase struct {
 
 var histOps = []string{"reroot", "rerootfirst", "unroot", "midpoint", "outgroup", "prune", "prunekeep", "collapselen", "collapsesup", "collapsedepth",
 	"removeedges", "collapseclade", "resolve", "rotate", "sort", "removesingle", "clone", "subtree", "nniapply", "nniapplyundo", "insertidentical", "graft", "merge",
-	"rename", "renameauto", "renameregexp", "shuffle", "reinit", "clearlen", "clearsup", "clearcomments", "scale", "round", "addcomment", "editcomment"}
+	"rename", "renameauto", "renameregexp", "shuffle", "reinit", "clearlen", "clearsup", "clearcomments", "scale", "round", "addcomment", "editcomment", "resolvenamed"}
 
 // structure-changing operations (for the non-triviality rule)
 var structOps = map[string]bool{"reroot": true, "rerootfirst": true, "unroot": true, "midpoint": true, "outgroup": true, "prune": true, "prunekeep": true,
 	"collapselen": true, "collapsesup": true, "collapsedepth": true, "removeedges": true, "collapseclade": true, "resolve": true, "rotate": true, "sort": true,
-	"removesingle": true, "subtree": true, "nniapply": true, "insertidentical": true, "graft": true, "merge": true, "shuffle": true}
+	"removesingle": true, "subtree": true, "resolvenamed": true, "nniapply": true, "insertidentical": true, "graft": true, "merge": true, "shuffle": true}
 
 func genTreeText(rt *rapid.T, prefix string, minTips, maxTips int, comments bool) string {
 	n := drawTaxa(rt, minTips, maxTips)
@@ -287,6 +287,9 @@ func applyOp(st *histState, op HOp) (desc string, err error) {
 	case "resolve":
 		t.Resolve()
 		return "Resolve", nil
+	case "resolvenamed":
+		t.ResolveNamedInternalNodes()
+		return "ResolveNamedInternalNodes", nil
 	case "rotate":
 		t.RotateInternalNodes()
 		return "RotateInternalNodes", nil
